@@ -64,8 +64,11 @@ def m_pad(ev, args, kw, node):
     d = b.get("data")
     rec = ("PAD", b.get("boundary_width"), b.get("boundary"), b.get("fill_value"), b.get("grid"), b.get("other_component"))
     ev.events.append(("pad",) + rec[1:] + (d, node))
+    bw = b.get("boundary_width")
+    pads = isinstance(bw, dict) and any(tuple(w) != (0, 0) for w in bw.values())
     if isinstance(d, Obj):
-        return d.with_eff(rec)
+        # pad() works on coordinate-stripped data (C19 R19.3) and hands its input back untouched when every width is zero
+        return d.with_eff(rec, coords={}) if (pads and "coords" in d.attrs) else d.with_eff(rec)
     if isinstance(d, dict):  # vector component: padding returns the plain array
         (v,) = d.values()
         if isinstance(v, Obj):
